@@ -7,6 +7,7 @@ The factors are read off the generator's post-state (stores sliced at their curs
 from __future__ import annotations
 
 import itertools
+import math
 
 from harness import core
 
@@ -60,6 +61,27 @@ ASSUMPTIONS = [
     "jnp.repeat / jnp.tile / jnp.concatenate follow their documented semantics (compared exactly on every case)",
 ]
 EXHAUSTIVE = {"quick": False, "thorough": True}
+
+
+def _qs(x):
+    """exact rational of a finite float; non-finite floats cross the protocol as "nan" / "inf" / "-inf"
+    (a non-finite coordinate is an observation - a point outside every domain - not a harness failure)"""
+    x = float(x)
+    if math.isnan(x):
+        return "nan"
+    if math.isinf(x):
+        return "inf" if x > 0 else "-inf"
+    return core.qstr(x)
+
+
+def _ql(a):
+    import numpy as np
+
+    a = np.asarray(a)
+    if a.ndim == 0:
+        return _qs(a.item())
+    return [_ql(x) for x in a]
+
 
 
 def _gen_case(rng, dim, cart, border, bt, b, bb, epochs):
@@ -173,8 +195,8 @@ def run_impl(case):
             out = np.asarray(make_cartesian_product(jnp.asarray(b1), jnp.asarray(b2)))
         except Exception as e:  # noqa: BLE001
             return {"error": core.err_kind(e)}
-        return {"b1": core.qlist(b1) if b1.size else [], "b2": core.qlist(b2) if b2.size else [],
-                "out": core.qlist(out) if out.size else [], "shape": list(out.shape)}
+        return {"b1": _ql(b1) if b1.size else [], "b2": _ql(b2) if b2.size else [],
+                "out": _ql(out) if out.size else [], "shape": list(out.shape)}
 
     if case["kind"] == "guard":
         try:
@@ -195,21 +217,21 @@ def run_impl(case):
         g, batch = g.get_batch()
         times, omega = np.asarray(g.times), np.asarray(g.omega)
         tidx, oidx = int(g.curr_time_idx), int(g.curr_omega_idx)
-        st = {"times": core.qlist(times), "tidx": tidx, "bt": bt, "omega": core.qlist(omega), "oidx": oidx, "b": b,
-              "ts": core.qlist(_slice(times, tidx, bt)), "xs": core.qlist(_slice(omega, oidx, b)),
-              "tx": core.qlist(np.asarray(batch.times_x_inside_batch)),
+        st = {"times": _ql(times), "tidx": tidx, "bt": bt, "omega": _ql(omega), "oidx": oidx, "b": b,
+              "ts": _ql(_slice(times, tidx, bt)), "xs": _ql(_slice(omega, oidx, b)),
+              "tx": _ql(np.asarray(batch.times_x_inside_batch)),
               "tx_shape": list(batch.times_x_inside_batch.shape)}
         if g.omega_border is None:
             st.update({"border": None, "bidx": 0, "bb": 0, "dx": None})
         elif dim == 1:
             bd = np.asarray(g.omega_border)[None, None]
-            st.update({"border": core.qlist(bd), "bidx": 0, "bb": 1, "dx": core.qlist(bd)})
+            st.update({"border": _ql(bd), "bidx": 0, "bb": 1, "dx": _ql(bd)})
         else:
             bd = np.asarray(g.omega_border)
             bidx, bb = int(g.curr_omega_border_idx), int(g.omega_border_batch_size)
-            st.update({"border": core.qlist(bd), "bidx": bidx, "bb": bb, "dx": core.qlist(_slice(bd, bidx, bb))})
+            st.update({"border": _ql(bd), "bidx": bidx, "bb": bb, "dx": _ql(_slice(bd, bidx, bb))})
         tdx = batch.times_x_border_batch
-        st["tdx"] = None if tdx is None else core.qlist(np.asarray(tdx))
+        st["tdx"] = None if tdx is None else _ql(np.asarray(tdx))
         st["tdx_shape"] = None if tdx is None else list(tdx.shape)
         cur = (tidx, oidx)
         if r > 0 and (tidx == 0 or oidx == 0):
@@ -261,7 +283,7 @@ def judge(case, obs, a):
         return {"status": "violation", "clause": "array-rank-differs-from-the-declared-shape"}
     if a is None:  # the implementation raised on a well-formed case
         return {"status": "violation", "clause": "well-formed-request-raised:" + str(obs.get("error"))}
-    if not a["holds"]:
+    if a.get("nonfinite") or not a["holds"]:
         return {"status": "violation", "clause": a["clause"], "step": a.get("step")}
     if case["kind"] == "prod":
         if case["rank"] == 2:
